@@ -2,6 +2,7 @@ package cli
 
 import (
 	"github.com/Vedant9500/WTF/internal/database"
+	"github.com/spf13/pflag"
 )
 
 // ---- C08 (kernel) / C09 (notebook): the read-modify-write of the personal notebook ----
@@ -128,4 +129,93 @@ func VerifHarness_C09_Notebook() {
 	} else {
 		verifReach("interrupted")
 	}
+}
+
+// ---- the sub-command handlers themselves (cobra dispatch and flag parsing stay outside: the
+// handler is called directly, flags are set through the flag set) ----
+
+func c08Flags(cmd interface {
+	Flags() *pflag.FlagSet
+}, defs map[string]bool) *pflag.FlagSet {
+	fl := cmd.Flags()
+	if fl.Lookup("keywords") == nil {
+		// package init (which registers the flags) is not executed symbolically
+		fl.StringSliceP("keywords", "k", nil, "")
+		fl.StringP("category", "c", "", "")
+		fl.StringSliceP("platforms", "p", nil, "")
+		if defs["description"] {
+			fl.String("description", "", "")
+		}
+		if defs["pipeline"] {
+			fl.Bool("pipeline", false, "")
+		}
+	}
+	return fl
+}
+
+func c08HandlerCheck(stored database.Command, command, desc string, pipeline bool, withCategory bool) {
+	verifAssert(stored.Command == command, "C08: the stored entry holds exactly the given command")
+	verifAssert(stored.Pipeline == pipeline, "C08: the stored entry keeps its pipeline flag")
+	if desc != "" {
+		verifAssert(stored.Description == desc, "C08: the stored entry holds exactly the given description")
+	}
+	if withCategory {
+		verifAssert(stored.Niche == "mine", "C08: the stored entry holds exactly the given category")
+	} else {
+		verifAssert(stored.Niche == "", "C08: the stored entry holds exactly the given category")
+	}
+}
+
+// `wtf save-pipeline <name> <command>`: with and without a `|` in the command
+func VerifHarness_C08_SavePipelineHandler() {
+	path := verifFSHome() + "/.config/cmd-finder/personal.yml"
+	fl := c08Flags(savePipelineCmd, map[string]bool{"description": true})
+	withCategory := verifBool("category")
+	if withCategory {
+		_ = fl.Set("category", "mine")
+	}
+	desc := ""
+	if verifBool("description") {
+		desc = "my words"
+		_ = fl.Set("description", desc)
+	}
+	command := []string{"sort", "cat f | wc -l", "grep x f | sort | head"}[verifIntRange("command", 0, 2)]
+	savePipelineCmd.Run(savePipelineCmd, []string{"nm", command})
+	db, err := database.LoadDatabase(path)
+	verifAssert(err == nil, "C08: the notebook loads after a successful save")
+	if err != nil {
+		return
+	}
+	verifAssert(len(db.Commands) == 1, "C08: a new command string is appended")
+	if len(db.Commands) == 1 {
+		c08HandlerCheck(db.Commands[0], command, desc, true, withCategory)
+	}
+	verifReach("saved")
+}
+
+// `wtf save <command> <description>`
+func VerifHarness_C08_SaveHandler() {
+	path := verifFSHome() + "/.config/cmd-finder/personal.yml"
+	fl := c08Flags(saveCmd, map[string]bool{"pipeline": true})
+	withCategory := verifBool("category")
+	if withCategory {
+		_ = fl.Set("category", "mine")
+	}
+	pipeline := verifBool("pipeline")
+	if pipeline {
+		_ = fl.Set("pipeline", "true")
+	}
+	_ = fl.Set("keywords", "k1,k2")
+	saveCmd.Run(saveCmd, []string{"tar -czf b.tgz d", "make a backup"})
+	db, err := database.LoadDatabase(path)
+	verifAssert(err == nil, "C08: the notebook loads after a successful save")
+	if err != nil {
+		return
+	}
+	verifAssert(len(db.Commands) == 1, "C08: a new command string is appended")
+	if len(db.Commands) == 1 {
+		c08HandlerCheck(db.Commands[0], "tar -czf b.tgz d", "make a backup", pipeline, withCategory)
+		verifAssert(len(db.Commands[0].Keywords) == 2 && db.Commands[0].Keywords[0] == "k1" && db.Commands[0].Keywords[1] == "k2", "C08: the stored entry holds exactly the given keywords")
+	}
+	verifReach("saved")
 }
